@@ -120,6 +120,40 @@ func checkMetrics(m *Mesh) {
 func runC12() {
 	m := DrawMesh(2, 7, AllTopos)
 	PlaceRoutes(m, true)
+	if len(m.Nodes) >= 3 && simrt.Chance(1, 2, "shared-routes") {
+		// the same prefix, domain patterns and forward key advertised by two agents:
+		// every other agent must learn both advertisers' routes
+		a := simrt.Choose(len(m.Nodes), "shared-a")
+		b := (a + 1 + simrt.Choose(len(m.Nodes)-1, "shared-b")) % len(m.Nodes)
+		for _, j := range []int{a, b} {
+			nd := m.Nodes[j]
+			nd.Cfg.Exit.Enabled = true
+			nd.Cfg.Exit.Routes = append(nd.Cfg.Exit.Routes, "10.250.0.0/16")
+			nd.Cfg.Exit.DomainRoutes = append(nd.Cfg.Exit.DomainRoutes, "*.corp.example", "db.corp.example")
+			nd.Cfg.Forward.Endpoints = append(nd.Cfg.Forward.Endpoints, config.ForwardEndpoint{Key: "shared-svc", Target: fmt.Sprintf("192.168.%d.9:9000", j)})
+		}
+		simrt.Probe("c12_same_routes_from_two_agents")
+	}
+	if len(m.Edges) == len(m.Nodes)-1 && simrt.Chance(1, 2, "tight-hop-limit") {
+		// a tree has one path between any two agents: with the hop limit equal to
+		// the longest of them every agent is still within the limit of every origin
+		diam := 0
+		for j := range m.Nodes {
+			for _, d := range m.Dist(j) {
+				if d > diam {
+					diam = d
+				}
+			}
+		}
+		mh := diam + simrt.Choose(2, "hop-slack")
+		for _, nd := range m.Nodes {
+			nd.Cfg.Routing.MaxHops = mh
+		}
+		simrt.Eventf("tree with diameter %d, max_hops=%d", diam, mh)
+		if mh == diam {
+			simrt.Probe("c12_hop_limit_equals_diameter")
+		}
+	}
 	// destination servers inside every advertised prefix
 	for j, nd := range m.Nodes {
 		if nd.Cfg.Exit.Enabled {
@@ -135,7 +169,7 @@ func runC12() {
 		i := simrt.Choose(len(m.Nodes), "ingress")
 		var exits []int
 		for j, nd := range m.Nodes {
-			if nd.Cfg.Exit.Enabled && j != i {
+			if nd.Cfg.Exit.Enabled && j != i && ContainsStr(nd.Cfg.Exit.Routes, fmt.Sprintf("10.%d.0.0/16", 100+j)) {
 				exits = append(exits, j)
 			}
 		}
